@@ -17,6 +17,15 @@ def main(argv=None):
     from . import engine
     rec = json.load(open(argv[0]))
     check = importlib.import_module('mc.checks.%s' % rec['property'].lower())
+    if rec.get('history'):
+        # the violation needs the executions that preceded it in its unit (state kept across executions by the code under test)
+        n = engine.replay_with_history(check, rec['history']['units'], rec['case'], rec['signature'])
+        if n is None:
+            print('replay %s: property %s holds on this case, also after the executions that preceded it' % (argv[0], rec['property']))
+            return 0
+        print('VIOLATION property=%s replay=%s signature=%s (after the %d executions that preceded it in its worker process)' % (
+            rec['property'], argv[0], rec['signature'], n - 1))
+        return 1
     acc = engine.Acc()
     saved = sys.stdout
     sys.stdout = open(os.devnull, 'w')
